@@ -44,12 +44,18 @@ def event_msgs(events, ch=0):
     return out
 
 
-def seq_abs(notes=(), events=(), dur=None, ch_events=0):
+def seq_abs(notes=(), events=(), dur=None, ch_events=0, order="sane"):
     """Sequence built through add_absolute_message only (absolute view fresh, relative stale).
-    Messages are inserted in time order, at one tick offs, then signatures, then ons, so that a
-    well-formed description always yields a well-formed stored order."""
+    order="sane": messages are inserted in time order, at one tick offs, then signatures, then ons, so that a
+    well-formed description always yields a well-formed stored order.  The other orders insert the SAME timed events
+    in another sequence of calls (the library has to canonicalise ties itself): "reverse" = the sane order backwards,
+    "ons_first" = every note-on, then every note-off, then the other events."""
     s = Sequence()
     items, _ = timed_list(notes, events, None, ch_events)
+    if order == "reverse":
+        items = items[::-1]
+    elif order == "ons_first":
+        items = [it for it in items if it[1] == 2] + [it for it in items if it[1] == 0] + [it for it in items if it[1] == 1]
     for it in items:
         m = it[4]
         m.time = it[0]
